@@ -63,7 +63,8 @@ def run(ctx):
             cnt["invalid_price_req"] += 1
     for k, v in cnt.items():
         if v == 0:
-            raise vlib.ToolError("vacuity: no event of class %s in the validated traces" % k)
+            if not ctx.violations:
+                raise vlib.ToolError("vacuity: no event of class %s in the validated traces" % k)
     ctx.cov["classes"] = cnt
     ctx.cov["samples"] += [ev[len(ev) // 2], ev2[7], ev2[-1]]
     ctx.assumptions += ["the clock is the stubbed Clock sysvar (slot, unix_timestamp) set by the driver before each call",
